@@ -95,7 +95,18 @@ Lemma link_untitle_calls : C20_Gen.untitle_calls =
    "unicode.ToLower"; "string"; "return"].
 Proof. reflexivity. Qed.
 
+Lemma link_newconfig_calls : C20_Gen.newconfig_calls = ["len"; "validate"; "return"].
+Proof. reflexivity. Qed.
+
+Lemma link_validate_calls : C20_Gen.validate_calls = ["strings.TrimSpace"; "len"; "errors.New"; "return"; "return"].
+Proof. reflexivity. Qed.
+
 Local Close Scope string_scope.
+
+(* config.DefaultFormat is the model's and the Spec's default template *)
+Lemma link_default_const : bytes_of_string C20_Gen.DefaultFormat = default_format /\
+                           bytes_of_string C20_Gen.DefaultFormat = default_template.
+Proof. split; reflexivity. Qed.
 
 (* config.DefaultFormat ("godesigner") is an accepted template: every word lower-cased, nothing in between *)
 Lemma link_default_format : forall U content,
@@ -132,14 +143,23 @@ Lemma spec_ok_sound c : spec_ok c = true ->
   (forall r, spec_format (unicode_of c) (c_tmpl c) (c_content c) = Some r -> c_fmt c = OOk r) /\
   (spec_format (unicode_of c) (c_tmpl c) (c_content c) = None -> exists k m, c_fmt c = OErr k m) /\
   (exists a b d, c_camel c = OOk a /\ c_snake c = OOk b /\ c_rt c = OOk d) /\
-  (is_ident (c_content c) = true -> c_rt c = OOk (c_content c)).
+  (is_ident (c_content c) = true -> c_rt c = OOk (c_content c)) /\
+  c_cfg c <> OPanic /\ c_cfgfmt c <> OPanic /\
+  (forall f, c_cfg c = OOk f -> f = effective_template (c_tmpl c)) /\
+  (forall r, spec_configured (unicode_of c) (c_tmpl c) (c_content c) = Some r -> c_cfgfmt c = OOk r) /\
+  (spec_configured (unicode_of c) (c_tmpl c) (c_content c) = None -> exists k m, c_cfgfmt c = OErr k m).
 Proof.
   unfold spec_ok. intro H. repeat (apply andb_true_iff in H; destruct H as [H ?]).
-  split; [|split; [|split; [|split; [|split]]]].
+  split; [|split; [|split; [|split; [|split; [|split; [|split; [|split; [|split; [|split]]]]]]]]].
   - destruct (c_fmt c); simpl in H; congruence.
   - apply obs_eqb_eq. assumption.
   - intros r Hr. rewrite Hr in *. apply obs_eqb_eq. assumption.
   - intro Hn. rewrite Hn in *. destruct (c_fmt c); try discriminate; eauto.
   - destruct (c_camel c), (c_snake c), (c_rt c); try discriminate. do 3 eexists. split; [|split]; reflexivity.
   - intro Hi. rewrite Hi in *. apply obs_eqb_eq. assumption.
+  - destruct (c_cfg c); simpl in *; congruence.
+  - destruct (c_cfgfmt c); simpl in *; congruence.
+  - intros f Hf. rewrite Hf in *. apply (list_eqb_eq N.eqb); [intros; apply N.eqb_eq|assumption].
+  - intros r Hr. rewrite Hr in *. apply obs_eqb_eq. assumption.
+  - intro Hn. rewrite Hn in *. destruct (c_cfgfmt c); try discriminate; eauto.
 Qed.
